@@ -66,7 +66,7 @@ GROUPS = (STAGES + ("compute",), ("reoptimized-fused",), ("reoptimized",))
 RULE = ("case = (program, frame seed, rows, index kind, partitioning). Programs are let-list DAGs over one base frame "
         "(columns a int, b str, c float+NaN, d float, e bool, u unique int): complete sub-space first (all 24 orders of "
         "{projection keeping a, filter on a, assign shadowing a from d and a, filter on the then-current a} x 3 "
-        "partitionings), then 18 hand-written shared-sub-expression templates x frames x partitionings, then typed-random "
+        "partitionings), then 20 hand-written shared-sub-expression templates x frames x partitionings, then typed-random "
         "'chain' programs (2-6 frame steps in random order from proj/filter/assign(shadowing)/fillna/astype/rename/head/"
         "tail/set_index/sort_values/drop/dropna/frame-arithmetic/concat of two branches/axis-1 concat/merge of two "
         "branches, predicates with reductions inside) and 'dag' programs (steps branch from any earlier frame; terminals: "
@@ -128,6 +128,11 @@ PENDING = {
     "reoptimized-fused:fused-group-reads-rewritten-dependency:ValueError@local.py:start_state_from_dask":
         "optimize() of an already fused expression rewrites a Fused node's operands but not the expressions inside the group: "
         "collection.optimize().compute() raises Missing dependency (~5 % of programs; no small fix)",
+    "reoptimized-fused:fused-group-reads-rewritten-dependency:ValueError@_task_spec.py:fuse":
+        "same mechanism, noticed already by Task.fuse while materialising the graph",
+    "simplified-logical:head:length":
+        "Head(Head(x, n1, npartitions=-1), n2) is merged into Head(x, min(n), npartitions of the OUTER head): "
+        "df.head(4, npartitions=-1, compute=False).head(2) only looks at the first partition (fix proposed)",
     "simplified-logical:projection-pushed-below-sort-head:KeyError@dataframe/dask_expr/_reductions.py:_nfirst":
         "sort_values(k).head(n) -> NFirst; a later projection without k is pushed below it (fix proposed)",
     "simplified-logical:projection-pushed-below-sort-head:TypeError@dataframe/dask_expr/_reductions.py:_nfirst":
@@ -204,7 +209,15 @@ def _base(case):
     from vf.gen import frames
 
     pdf = frames.rand_frame(case["fseed"], nrows=case["nrows"], index=case["index"], cols="basic")
-    pdf["u"] = np.random.default_rng(case["fseed"] + 1).permutation(len(pdf)).astype("int64")
+    r = np.random.default_rng(case["fseed"] + 1)
+    pdf["u"] = r.permutation(len(pdf)).astype("int64")
+    # columns are correlated (d follows a, c follows u) so that a filter on one column visibly moves the mean/max of
+    # another one: a reduction evaluated over the wrong (unfiltered) rows then selects different rows
+    pdf["d"] = (pdf["a"] * 2 - 3 + r.integers(-1, 2, len(pdf))).astype("float64")
+    if len(pdf):
+        c = pdf["c"].to_numpy().copy()
+        c = np.round(c * 0.5 + (pdf["u"].to_numpy() - len(pdf) / 2) / max(1, len(pdf)) * 4, 2)
+        pdf["c"] = c
     return pdf
 
 
